@@ -2675,7 +2675,11 @@ class BaseInterpreter(Generic[TContext, TEvent]):
             Optional[StateNode]: The state node that is the LCCA, or None if the
             root is the domain.
         """
-        parent = transition.source.parent or self.machine
+        # 🌳 `None` stands for "the whole machine": a transition whose source
+        #    or target is the root itself must exit and re-enter the root.
+        #    Using the root node as the domain exited every state below it
+        #    and entered nothing, leaving only the root active.
+        parent = transition.source.parent
 
         # For any self-transition, the domain is the parent. This forces an
         # exit/re-entry cycle for the source state.
@@ -2702,7 +2706,7 @@ class BaseInterpreter(Generic[TContext, TEvent]):
         # restored, permanently killing them. The parent is the correct domain:
         # it exits and re-enters exactly the target subtree.
         if target_state in source_ancestors:
-            return target_state.parent or self.machine
+            return target_state.parent
 
         if not common_ancestors:
             # Fallback to parent (or machine root) if no commonality is found.
